@@ -312,5 +312,6 @@ func defaultMarshaller[T proto.Message](r *http.Request, t T) ([]byte, error) {
 func defaultError(w http.ResponseWriter, code int, message string) {
 	w.WriteHeader(code)
 	w.Header().Set("Content-Type", "application/json")
-	w.Write([]byte(strconv.Quote(message)))
+	bMessage, _ := json.Marshal(message)
+	w.Write(bMessage)
 }
